@@ -14,6 +14,8 @@
      arma_class_axis        ... with S[j] = rho |B(w^j)|^2/|A(w^j)|^2 for the AR / MA / ARMA classes (guard A(w^j) <> 0: the code divides by it)
      minvar_class_axis      ... with S[j] = 1 / sum_k |A_k(w^j)|^2/P_k for the minimum-variance class (NFFT >= 2*order-1)
      multitaper_class_axis  the multitaper class: len(default axis) entries, entry b = [2pi/df] [2] * weighted mean of the eigenspectra at bin b
+     class_models_agree     the class models of C17 (Eigen.class_psd: pmusic / pev) and C19 (Mtm.mt_fold: MultiTapering) ARE the interpreter's do_store at
+                            the stores the generated table gives those classes (generated theorem store_rows): one stored array, two descriptions
    -- tone location, exact
      unit_sum_bound, tone_at_its_bin, tone_peak   (phase 1) |sum w_n u_n|^2 <= (sum w_n)^2; the windowed DFT of an on-grid exponential peaks at its bin
      periodogram_peak       speriodogram (model of the code: flags failing, real- or complex-data storage, any N <= NFFT, any window with
@@ -30,6 +32,9 @@
                             is [scale] [2] 1/D(bin of entry), D >= 0 everywhere, and D = 0 exactly computed at every entry whose bin is
                             congruent to a true bin -- the reciprocal of the minimum of the denominator: the "infinite" maximum
                             (the code gets inf; the model's 1/0 is the totalised field's)
+     music_no_other_zero    ... and D(b) > 0 (so 1/D(b) is finite and > 0) at EVERY bin b not congruent to a true bin: K+1 exponentials with distinct
+                            nodes cannot all lie in the K-dimensional signal space (completeness of V + dependence of K+1 vectors in a K-span +
+                            transposed Vandermonde).  With music_tone_exact: the zero set of D on the grid is exactly the set of true bins
      covar_tone_exact / modcovar_tone_exact   p distinct on-grid exponentials, order p, N >= 2p, any lstsq meeting lstsq_spec: e = 0 and the
                             denominator polynomial of arma2psd satisfies A(w^b) = 0 <-> b congruent to a true bin (mod NFFT)
      covar_tone_returns     the executed models (Gaussian elimination) do return (a, 0) on such data
@@ -45,6 +50,7 @@
    PROVED over the GENERATED table (tools/props/_pipelines.py + tools/props/_c02_theorems.v.in, recompiled from the snapshot on every
    run by tools/props/C02.py through ctx.check_generated; listed in the evidence under these names):
      c02_table_complete     every class has exactly one row
+     store_rows             the real- / complex-data store of every row (SAsIs | twosided_2_onesided | first half * 2 [reversed] | centerdc_2_twosided)
      default_axis           frequencies() (default side) has NFFT/2+1 | (NFFT+1)/2 | NFFT entries = length (freq_bins ...), entry j = j*sampling/NFFT,
                             in every reachable object state (constructed, sampling reassigned any number of times)
      pipeline_length        every class of the statement (pdaniell is not one), every NFFT >= 1, real / complex, scale_by_freq on / off:
@@ -57,7 +63,7 @@
    NOT PROVED (search on the implementation only): a tone IN NOISE for any class (exact for periodogram / correlogram / covariance / modified
    covariance / MUSIC / EV; "within one bin" for Burg, Yule-Walker, ARMA, minimum variance; "within the taper bandwidth" for multitaper;
    real sinusoid within the main lobe for windows other than the rectangular one / N < NFFT) -- statements about perturbed non-linear
-   estimators with no closed form; that D has no OTHER zero than the true bins for MUSIC / EV; the correlogram peak for other windows / lags;
+   estimators with no closed form; the correlogram peak for other windows / lags;
    "finite" is expressed by the guards (denominator <> 0) of the formulas, binary64 overflow is not modelled; that each functional
    estimator's model is the code is tied by the correspondence runs of C01 / C08 / C14 / C16 / C17 / C19, not proved. *)
 Require Import Spectrum.Theory.Ops Spectrum.Theory.Sum Spectrum.Theory.Vec Spectrum.Theory.Order Spectrum.Theory.Dft
@@ -70,7 +76,7 @@ Require Import Spectrum.Theory.Ops Spectrum.Theory.Sum Spectrum.Theory.Vec Spect
                Spectrum.Model.Ls Spectrum.Proofs.CovarTheory
                Spectrum.Model.Eigen Spectrum.Proofs.EigenFB Spectrum.Proofs.EigenTheory
                Spectrum.Proofs.FunctionalLen_C02 Spectrum.Proofs.ClassAxis_C02 Spectrum.Proofs.PeakClass_C02
-               Spectrum.Proofs.SubspaceTone_C02 Spectrum.Proofs.ToneExact_C02
+               Spectrum.Proofs.SubspaceTone_C02 Spectrum.Proofs.SubspaceStrict_C02 Spectrum.Proofs.ToneExact_C02 Spectrum.Proofs.ClassModels_C02
                Spectrum.Instances.QcC Spectrum.Instances.QcCOrd Spectrum.Instances.QcCTw.
 From Coq Require Import QArith Qcanon.
 
@@ -173,6 +179,16 @@ Theorem music_tone_exact meth eps crit amin (x : list F) (P K : nat) (A z : nat 
   /\ (forall i j (c : Z), (i < K)%nat -> (j < length psd)%nat -> entry_bin isr j = (bin i + c * Z.of_nat n)%Z ->
         D (entry_bin isr j) = 0 /\ forall b : Z, le (D (entry_bin isr j)) (D b)).
 Proof. exact (music_tone_exact_thm tw n n_pos meth eps crit amin x P K A z bin S Vh isr scale psd ev). Qed.
+
+Theorem music_no_other_zero meth eps (x : list F) (P K : nat) (A z : nat -> F) (bin : nat -> Z) (S : list F) (Vh : list (list F)) (b : Z) :
+  (forall i, (i < length x)%nat -> nthF x i = expsig K A z i) ->
+  (forall i, (i < K)%nat -> z i = tw (- bin i)%Z) ->
+  (K <= np_of (length x) P)%nat -> EigenFB.distinct K z -> (forall i, (i < K)%nat -> A i <> 0) ->
+  svd_spec (fb_matrix x P) (2 * np_of (length x) P) P S Vh -> (K < P)%nat ->
+  (meth = MEv -> pos eps /\ pos (nthF S 0)) ->
+  (forall i, (i < K)%nat -> ((b - bin i) mod Z.of_nat n <> 0)%Z) ->
+  pos (dform meth eps tw P S Vh K b) /\ pos (1 / dform meth eps tw P S Vh K b).
+Proof. exact (fun Hx Hg HK Hd HA Hs HKP Hev => music_no_other_zero_thm tw n n_pos x P K A z bin S Vh meth eps Hx Hg HK Hd HA Hs HKP Hev b). Qed.
 
 Theorem covar_tone_exact (x : list F) (p : nat) (amp : nat -> F) (bin : nat -> Z) lstsq tol a e :
   (forall t, (t < length x)%nat -> nthF x t = expsum p amp (fun i => tw (- bin i)%Z) t) ->
@@ -306,6 +322,11 @@ Proof. exact (fun Hrows => music_axis_real_c02 tw NFFT Hpos meth eps nsig thr cr
 Theorem arma2psd_rho_zero (tw : Z -> F) A B T n : admissible A B n ->
   exists psd, arma2psd tw A B 0 T n SidesDefault false = Some psd /\ length psd = n /\ forall k, (k < n)%nat -> nthF psd k = 0.
 Proof. exact (ToneExact_C02.arma2psd_rho_zero tw A B T n). Qed.
+
+Theorem class_models_agree (isr : bool) NFFT (l : list F) :
+  class_psd isr NFFT None l = do_store (if isr then SHalf HalfPlus1 HalfUp 2 true else SCenter2Two) NFFT l
+  /\ mt_fold isr NFFT l = do_store (if isr then SHalf HalfPlus1 HalfUp 2 false else SAsIs) NFFT l.
+Proof. exact (Logic.conj (eigen_class_is_store isr NFFT l) (mtm_fold_is_store isr NFFT l)). Qed.
 End C02axis.
 
 (* ---- real / non-negative ---- *)
@@ -453,6 +474,7 @@ Print Assumptions real_sinusoid_bins.
 Print Assumptions real_sinusoid_peak.
 Print Assumptions correlogram_peak.
 Print Assumptions music_tone_exact.
+Print Assumptions music_no_other_zero.
 Print Assumptions covar_tone_exact.
 Print Assumptions modcovar_tone_exact.
 Print Assumptions covar_tone_returns.
@@ -466,6 +488,7 @@ Print Assumptions music_axis_eigen.
 Print Assumptions music_axis_complex.
 Print Assumptions music_axis_real.
 Print Assumptions arma2psd_rho_zero.
+Print Assumptions class_models_agree.
 Print Assumptions psd_nonneg_stored.
 Print Assumptions psd_nonneg_periodogram.
 Print Assumptions psd_real_correlogram.
